@@ -22,11 +22,12 @@ EXPLANATION = (
     "name/alias; (R4) FieldInfo.column_properties / index_properties forward every FieldInfo attribute that the "
     "Column / Index constructor accepts; (R5) building a model's schema writes nothing but memo slots on the class "
     "(no hidden state shared along the hierarchy). (R6) _collect_fields fills the field mapping while ranging over the type hints (declaration order), not the merged class attributes; (R7) the `Field omitted` test looks at the class's own namespace (cls.__dict__), so a bare re-annotation in a subclass gets a fresh Field. " 
+    " (R8) definite assignment: no function of the DataFrameModel modules reads a local that a branch-only path from its entry leaves unassigned (CFG may-analysis, optimistic about try bodies and loop bodies, correlated guards pruned) - an UnboundLocalError there would escape to_schema(). " 
     "NOT decided: annotation -> dtype translation; MRO semantics at run "
     "time; verdict equality on data."
 )
 LEVEL_RULE = "one obligation per twin pair / config option / dispatch key / field attribute / write site"
-FLOORS = {"R1": 4, "R2": 12, "R3": 16, "R4": 14, "R5": 1, "R6": 1, "R7": 1}
+FLOORS = {"R1": 4, "R2": 12, "R3": 16, "R4": 14, "R5": 1, "R6": 1, "R7": 1, "R8": 1}
 
 MODEL = "pandera/api/dataframe/model.py::DataFrameModel"
 MC = "pandera/api/dataframe/model_components.py"
@@ -327,6 +328,8 @@ def r7_own_namespace(ctx):
 
 
 def run(ctx):
+    from ..defassign import check_modules
+    check_modules(ctx, "R8", ('pandera/api/dataframe/model.py', 'pandera/api/dataframe/model_components.py', 'pandera/api/pandas/model.py', 'pandera/api/polars/model.py', 'pandera/api/base/model.py', 'pandera/api/base/model_components.py'), "escapes to_schema()/validate of the model")
     r6_declaration_order(ctx)
     r7_own_namespace(ctx)
     r1_twins(ctx)
